@@ -38,3 +38,70 @@ class OldPair(p.Expression):
 
 class OldTagSub(OldTag):
     """Undecorated subclass of a backend-only node."""
+
+
+# {{{ expr_dataclass user nodes with a __post_init__ -- one per kind of thing it can do
+
+from pymbolic.primitives import expr_dataclass  # noqa: E402
+
+
+@expr_dataclass()
+class PostCheck(p.Expression):
+    """__post_init__ only validates."""
+    child: object
+
+    def __post_init__(self):
+        if self.child is None:
+            raise ValueError("child needed")
+
+
+@expr_dataclass()
+class PostNormalize(p.Expression):
+    """Idempotent normalisation (like Comparison / CommonSubexpression / CallWithKwargs)."""
+    child: object
+    mode: object = None
+
+    def __post_init__(self):
+        if self.mode is None:
+            object.__setattr__(self, "mode", "default")
+        if isinstance(self.child, list):
+            object.__setattr__(self, "child", tuple(self.child))
+
+
+@expr_dataclass()
+class PostWrap(p.Expression):
+    """NOT idempotent: keeps its child wrapped in a CommonSubexpression."""
+    child: object
+
+    def __post_init__(self):
+        object.__setattr__(self, "child", p.CommonSubexpression(self.child, "memo"))
+
+
+@expr_dataclass()
+class PostScale(p.AlgebraicLeaf):
+    """NOT idempotent: built from an element offset, stored in bytes."""
+    arr: object
+    offset: int
+
+    def __post_init__(self):
+        object.__setattr__(self, "offset", 8 * self.offset)
+
+
+@expr_dataclass()
+class PostExtend(p.Expression):
+    """NOT idempotent on a tuple field: appends a terminator operand."""
+    children: tuple
+
+    def __post_init__(self):
+        object.__setattr__(self, "children", (*self.children, p.Variable("end")))
+
+
+@expr_dataclass()
+class PostWrapD0(PostWrap):
+    """Decorated subclass adding nothing: inherits the transforming __post_init__."""
+
+
+class PostScaleU(PostScale):
+    """Undecorated subclass of a node with a transforming __post_init__."""
+
+# }}}
